@@ -9,7 +9,7 @@ from pyworkers.persistent import WorkerClosedError
 TMO = 5
 
 
-def scenario(kind, ending, idx, fault, k, init_state=None, stateful=False, m=0):
+def scenario(kind, ending, idx, fault, k, init_state=None, stateful=False, m=0, how=0):
     """fault: 0 none / 1 graceful terminate landing at point k / 2 SIGKILL at point k."""
     T.reset()
     W = wsim.World(server=wsim.is_remote_kind(kind))
@@ -71,7 +71,19 @@ def scenario(kind, ending, idx, fault, k, init_state=None, stateful=False, m=0):
                 rec["state_log_early"] = list(T.STATE_LOG)
             if L is not None:
                 L.release()
-            rec["wait"] = w.wait(timeout=TMO)
+            if how == 1 and not wsim.is_persistent(kind):
+                # the parent never waits: it polls is_alive() until the worker is gone (no early read of the result by wait())
+                for _ in range(12):
+                    if not w.is_alive():
+                        break
+                    W.sim.sleep(1)
+                rec["wait"] = not w.is_alive()
+            elif how == 2 and not wsim.is_persistent(kind):
+                # the child has long ended when the parent calls terminate()
+                W.sim.sleep(6)
+                rec["wait"] = w.terminate(timeout=TMO)
+            else:
+                rec["wait"] = w.wait(timeout=TMO)
             if not rec["wait"]:
                 rec["term2"] = w.terminate(timeout=TMO)
             rec["dead"] = not w.is_alive()
